@@ -66,7 +66,7 @@ ACB = "ActionResult with <=%d output files (inline or not), <=1 output directory
 h("VerifValidatedAC", D, AC, ACB % 1, "GetValidatedActionResult: hit iff every referenced blob is present with its declared size; absence is a miss, not an error; a hit touches every local referenced blob", unwind=16)
 h("VerifValidatedACDir", D, AC, "ActionResult with one output directory whose Tree has one root file and one child file, optional stdout/stderr", "as VerifValidatedAC (Tree path)", unwind=16)
 h("VerifValidatedAC2", D, AC, ACB % 2, "as VerifValidatedAC", unwind=16)
-h("VerifValidatedACProxy", D, AC, "as VerifValidatedAC without directory, backend with arbitrary verdict, 2 containsWorker goroutines, <=2 preemptions", "hit only if every blob is local or vouched for by the backend", unwind=16)
+h("VerifValidatedACProxy", D, AC, "one output file + optional stdout digest, backend with arbitrary verdict, 2 containsWorker goroutines + the wait goroutine, <=1 preemption, every choice of a ready select case explored", "hit only if every blob is local or vouched for by the backend (fail-fast search)", unwind=16, switches=1, timeout_s=1500)
 
 FM = ["zz_verif_findmissing.go"]
 FMB = "request of <=%d digests, each: indexed hash H0/H1 with symbolic stated size, unknown hash, or the empty blob; 2 indexed entries with symbolic sizes"
@@ -99,7 +99,7 @@ P = {
  "C04": (["VerifPutCasRaw", "VerifPutAC", "VerifGetAC", "VerifGetCasRaw", "VerifProxyGetAC", "VerifLRUAdd3", "VerifLRURemove"],
          ["VerifPutCasZstd", "VerifPutCasZstdProxy", "VerifGetCasZstd", "VerifProxyGetCasRaw", "VerifProxyGetCasZstd"], [FSM, CODEC, HASH], ["files created by anything other than bazel-remote", "directory fsync"]),
  "C05": (["VerifLRUAdd3", "VerifLRUReserve3", "VerifLRUGet", "VerifGetAC", "VerifContains"], ["VerifLRUAdd4", "VerifLRUReserve4", "VerifGetCasZstd", "VerifGetCasRaw"], [FSM], ["atime order after restart (C09)", "more live entries than the bound"]),
- "C06": (["VerifValidatedAC", "VerifValidatedACDir"], ["VerifValidatedAC2", "VerifValidatedACProxy"], [FSM, "proto.Unmarshal by identity: stored bytes decode to the registered message"], ["real protobuf decoding", "races between the check and a concurrent eviction"]),
+ "C06": (["VerifValidatedAC", "VerifValidatedACDir", "VerifValidatedACProxy"], ["VerifValidatedAC2"], [FSM, "proto.Unmarshal by identity: stored bytes decode to the registered message"], ["real protobuf decoding", "races between the check and a concurrent eviction"]),
  "C10": (["VerifFindMissing3", "VerifFindMissingProxy1", "VerifFindMissingBatch", "VerifFilterNonNil", "VerifContains"], ["VerifFindMissing4", "VerifFindMissingProxy2", "VerifFindMissingBatch2"], ["the backend is an arbitrary per-hash verdict"], ["hundreds of digests with all states symbolic", "512 real workers", "more than 2 preemptive context switches"]),
  "C11": (["VerifValidateFilesDirs", "VerifValidateSymlinks", "VerifValidateNil"], [], ["strings are ASCII (Go byte strings and SMT code-point strings agree there)"], ["field-by-field fidelity of proto.Marshal/Unmarshal and protojson", "non-ASCII strings"]),
  "C12": (["VerifProxyGetAC", "VerifProxyGetCasRaw", "VerifProxyGetCasZstd", "VerifPutRawProxy"], ["VerifProxyGetCasZstdZ", "VerifPutCasZstdProxy", "VerifPutCasRawProxy"], [FSM, CODEC, HASH, "the backend is an arbitrary cache.Proxy stub"], ["minio/azure/gcs SDK calls", "real HTTP body semantics"]),
